@@ -235,6 +235,81 @@ struct Job {
 }
 
 static RUN_THREAD: std::sync::Mutex<Option<std::sync::mpsc::Sender<Job>>> = std::sync::Mutex::new(None);
+/// CPU-time clock of the run thread (0 = not known yet).
+static RUN_THREAD_CPU_CLOCK: std::sync::atomic::AtomicI64 = std::sync::atomic::AtomicI64::new(0);
+
+/// CPU time the run thread has consumed so far, in milliseconds.
+fn run_thread_cpu_ms() -> Option<u64> {
+    let cid = RUN_THREAD_CPU_CLOCK.load(std::sync::atomic::Ordering::SeqCst);
+    if cid == 0 {
+        return None;
+    }
+    let mut ts = libc::timespec { tv_sec: 0, tv_nsec: 0 };
+    // SAFETY: ts is a valid out pointer; a stale clock id only makes the call fail
+    if unsafe { libc::clock_gettime(cid as libc::clockid_t, &mut ts) } != 0 {
+        return None;
+    }
+    Some(ts.tv_sec as u64 * 1000 + ts.tv_nsec as u64 / 1_000_000)
+}
+
+enum Waited {
+    Reply(RunReply),
+    /// the run burnt its whole CPU allowance without finishing
+    Spinning,
+    /// the run thread is neither finishing nor consuming CPU
+    Blocked,
+    /// the machine is too slow to tell
+    Inconclusive,
+}
+
+/// Wait for the run thread's reply.  A run is a few milliseconds of CPU; it is
+/// declared hung by the CPU time its thread has consumed (`watchdog_s`
+/// seconds), not by wall-clock time, so that a loaded machine - many checks
+/// at once, a build next door - cannot turn a descheduled run into a "hang".
+/// A thread that is not scheduled at all for a long stretch of wall-clock time
+/// although it was given the chance (no CPU consumed in 20 s after the first
+/// `watchdog_s` seconds) is blocked, which is a hang of the other kind.
+fn wait_for_reply(rx: &std::sync::mpsc::Receiver<RunReply>, watchdog_s: u64) -> Waited {
+    let started = std::time::Instant::now();
+    let mut cpu0 = run_thread_cpu_ms();
+    let mut window: std::collections::VecDeque<(u64, u64)> = std::collections::VecDeque::new();
+    loop {
+        match rx.recv_timeout(Duration::from_millis(500)) {
+            Ok(r) => return Waited::Reply(r),
+            Err(std::sync::mpsc::RecvTimeoutError::Disconnected) => return Waited::Inconclusive,
+            Err(std::sync::mpsc::RecvTimeoutError::Timeout) => {}
+        }
+        let wall = started.elapsed().as_secs();
+        if cpu0.is_none() {
+            cpu0 = run_thread_cpu_ms();
+        }
+        let (Some(c0), Some(c)) = (cpu0, run_thread_cpu_ms()) else {
+            // no CPU clock: fall back on a generous wall-clock limit
+            if wall >= watchdog_s * 10 {
+                return Waited::Spinning;
+            }
+            continue;
+        };
+        let used = c.saturating_sub(c0);
+        if used >= watchdog_s * 1000 {
+            return Waited::Spinning;
+        }
+        window.push_back((started.elapsed().as_millis() as u64, c));
+        while window.len() > 1 && window[1].0 + 20_000 <= window.back().unwrap().0 {
+            window.pop_front();
+        }
+        if wall >= watchdog_s {
+            let (t_old, c_old) = window[0];
+            let (t_new, c_new) = *window.back().unwrap();
+            if t_new - t_old >= 20_000 && c_new.saturating_sub(c_old) < 20 {
+                return Waited::Blocked;
+            }
+        }
+        if wall >= 1800 {
+            return Waited::Inconclusive;
+        }
+    }
+}
 
 fn spawn_run_thread() -> std::sync::mpsc::Sender<Job> {
     let (tx, rx) = std::sync::mpsc::channel::<Job>();
@@ -242,6 +317,12 @@ fn spawn_run_thread() -> std::sync::mpsc::Sender<Job> {
         .stack_size(2 * 1024 * 1024)
         .name("simrun".into())
         .spawn(move || {
+            // the watchdog reads this thread's CPU clock
+            let mut cid: libc::clockid_t = 0;
+            // SAFETY: pthread_self is this thread; cid is a valid out pointer
+            if unsafe { libc::pthread_getcpuclockid(libc::pthread_self(), &mut cid) } == 0 {
+                RUN_THREAD_CPU_CLOCK.store(cid as i64, std::sync::atomic::Ordering::SeqCst);
+            }
             while let Ok(job) = rx.recv() {
                 let r = std::panic::catch_unwind(std::panic::AssertUnwindSafe(|| {
                     job.prop.execute(&job.plan, &job.exec, job.want_log)
@@ -282,8 +363,14 @@ pub fn run_isolated(prop: &'static dyn Property, plan: &Value, exec: &Exec, want
         slot.as_ref().unwrap().send(job).expect("run thread gone");
     }
     let panics_before = PANICS.load(std::sync::atomic::Ordering::SeqCst);
-    match rx.recv_timeout(Duration::from_secs(prop.watchdog_s())) {
-        Ok(Ok(mut r)) => {
+    let waited = wait_for_reply(&rx, prop.watchdog_s());
+    let hang_kind = match &waited {
+        Waited::Spinning => "spinning",
+        Waited::Blocked => "blocked",
+        _ => "",
+    };
+    match waited {
+        Waited::Reply(Ok(mut r)) => {
             if PANICS.load(std::sync::atomic::Ordering::SeqCst) > panics_before {
                 let msg = LAST_PANIC.lock().map(|g| g.clone()).unwrap_or_default();
                 if msg.starts_with("HARNESS:") {
@@ -298,7 +385,7 @@ pub fn run_isolated(prop: &'static dyn Property, plan: &Value, exec: &Exec, want
             }
             r
         }
-        Ok(Err((panic, left))) => {
+        Waited::Reply(Err((panic, left))) => {
             let msg = if let Some(s) = panic.downcast_ref::<String>() {
                 s.clone()
             } else if let Some(s) = panic.downcast_ref::<&str>() {
@@ -329,7 +416,19 @@ pub fn run_isolated(prop: &'static dyn Property, plan: &Value, exec: &Exec, want
             prop.triage_abnormal(&mut r);
             r
         }
-        Err(_) => {
+        Waited::Inconclusive => {
+            simseam::clock::ABORT.store(true, std::sync::atomic::Ordering::Relaxed);
+            *RUN_THREAD.lock().unwrap() = None;
+            std::thread::sleep(Duration::from_millis(300));
+            simseam::clock::ABORT.store(false, std::sync::atomic::Ordering::Relaxed);
+            RunResult {
+                violations: vec![Violation::new("harness_error").detail(json!({
+                    "message": "HARNESS: a run neither finished nor used its CPU allowance within 30 minutes of real time (machine too loaded to tell)"
+                }))],
+                ..RunResult::default()
+            }
+        }
+        Waited::Spinning | Waited::Blocked => {
             // the thread is still spinning: ask it to unwind at its next clock
             // read, and abandon it
             simseam::clock::ABORT.store(true, std::sync::atomic::Ordering::Relaxed);
@@ -338,7 +437,11 @@ pub fn run_isolated(prop: &'static dyn Property, plan: &Value, exec: &Exec, want
             simseam::clock::ABORT.store(false, std::sync::atomic::Ordering::Relaxed);
             RunResult {
                 violations: vec![Violation::new("hang").detail(json!({
-                    "message": format!("run did not finish within {} s of real time", prop.watchdog_s())
+                    "message": if hang_kind == "spinning" {
+                        format!("run did not finish within {} s of CPU time", prop.watchdog_s())
+                    } else {
+                        format!("run thread blocked: no CPU consumed for 20 s, {} s after the run began", prop.watchdog_s())
+                    }
                 }))],
                 stats: [("hang".to_string(), 1)].into_iter().collect(),
                 ..RunResult::default()
